@@ -11,8 +11,10 @@ Class == {"atom", "p0text", "binlen0", "binlen255", "binlen256", "binlen65536", 
           "natural_lo", "natural_hi", "len8",
           "nonascii"}      \* text whose encoded length differs from its length in characters (2-, 3-, 4-byte UTF-8, lone surrogates, Latin-1 bytes)
 Trail == {"none", "junk", "truncated"}
-Kind  == {"bytes", "seekable", "file", "buffered", "nonseekable"}      \* seekable = io.BytesIO, file = a real file opened "rb",
-                                                                          \* buffered = io.BufferedReader over a raw stream
+Kind  == {"bytes", "bytearray", "seekable", "file", "buffered", "nonseekable"}      \* seekable = io.BytesIO, file = a real file opened "rb",
+                                                                          \* buffered = io.BufferedReader over a raw stream; bytearray = a caller-owned
+                                                                          \* mutable buffer that is overwritten after the parse (the parsed
+                                                                          \* result must not alias it)
 VARIABLES classes, trail, offset, kind
 vars == <<classes, trail, offset, kind>>
 Init == /\ \E n \in 1..MaxPickles : classes \in [1..n -> Class]
